@@ -152,7 +152,6 @@ pub fn unpark_blocked_target(p: &Program) -> bool {
                     | Op::NfWait { .. }
                     | Op::Await { .. }
                     | Op::Yield
-                    | Op::Spawn { .. }
             )
         }),
         _ => false,
